@@ -5,9 +5,11 @@ from engines.symvc.discharge import run_spec
 def run(ctx):
     ctx.trust("vsym symbolic differentiation rules (sum, product, quotient, y = x^(1/k) through y^k = x)")
     ctx.assume("in reach: Drucker 1949, Cazacu 2001 (J2O/J3O at a fixed generic anisotropy: exact rational coefficients, stress state and c symbolic) and Cazacu 2004 (isotropic), value / normal / second-derivative variants, on their regular branch (J2 and seq above the documented thresholds, positive radicands); von Mises is under C01; derivatives are taken in Mandel components (TFEL convention)",
-               "out of reach, NOT claimed: Hosford and Barlat (eigenvalues and real powers), hence Hosford(a=2)=Mises and Barlat(Id)=Hosford; Mohr-Coulomb (Lode angle trigonometry); Gurson-Tvergaard-Needleman, Rousselier-Tanguy-Besson, Michel-Suquet (cosh/exp, implicit scalar solves); Cazacu 2004 orthotropic and isotropy under change of basis are not built",
+               "Hosford 1972 and Barlat 2004: only the eigen-completion helpers are under contract (internals::computeHosfordStressSecondDerivative, internals::completeBaralatStressSecondDerivative: from the eigenvalues, the rotation and the derivatives of the criterion with respect to the eigenvalues to the second derivative with respect to the stress; oracle: Hessians of products of power sums, see specs/C22/e2_eigen.cxx; 1D, 2D in-plane rotations, 3D rotations about one coordinate axis, every pattern of repeated eigenvalues); the eigen solvers and the pow/abs formulas of these criteria are NOT, hence Hosford(a=2)=Mises and Barlat(Id)=Hosford are not claimed",
+               "out of reach, NOT claimed: Mohr-Coulomb (Lode angle trigonometry); Gurson-Tvergaard-Needleman, Rousselier-Tanguy-Besson, Michel-Suquet (cosh/exp, implicit scalar solves); Cazacu 2004 orthotropic and isotropy under change of basis are not built",
                "quick: 1D and 2D; thorough adds 3D")
     run_spec(ctx, flags="-DVERIF_THOROUGH" if ctx.thorough else "", expect_min=60, per_timeout=600 if ctx.thorough else 60)
+    run_spec(ctx, src="e2_eigen.cxx", exe="e2_eigen", flags="-DVERIF_THOROUGH" if ctx.thorough else "", expect_min=300, per_timeout=600 if ctx.thorough else 120)
     # derivative obligations have no symbolic-to-double replay: replay them against finite differences of the real code (replay/C22.cxx)
     from engines import replay as R
     import json
